@@ -1,4 +1,693 @@
-//! C15 — stub, replaced when the property's harness lands.
-use crate::util::{Em, Rng};
+//! C15 — incremental fitting: Gaussian / multinomial naive Bayes (`fit_with` batch by batch vs one
+//! `fit`, vs the textbook estimates), mini-batch k-means (`fit_with` recurrence, convergence flag),
+//! FTRL (`update` / `fit_with` recurrence, exact zeros).
+//!
+//! One request line carries the whole batch history; the response lists the state after every batch.
+//! Inputs are lattice values (small integers / dyadic rationals) so sums are exact in f64 whatever
+//! the reduction order; the only `~` tokens are values that went through ndarray's Welford variance
+//! (fused multiply-add), libm (`ln`, `exp`) or a dot product of non-lattice values.
+use crate::util::*;
+use linfa::dataset::Pr;
+use linfa::prelude::*;
+use linfa_bayes::{GaussianNb, MultinomialNb};
+use linfa_clustering::{IncrKMeansError, KMeans, KMeansInit};
+use linfa_ftrl::Ftrl;
+use linfa_nn::distance::L2Dist;
+use ndarray::{Array1, Array2};
+use rand_xoshiro::rand_core::SeedableRng;
+use rand_xoshiro::Xoshiro256Plus;
+use std::collections::BTreeMap;
 
-pub fn run(_em: &mut Em, _rng: &mut Rng) {}
+type Rows = Vec<Vec<f64>>;
+type Hist = Vec<(Rows, Vec<usize>)>;
+
+fn arr2(rows: &Rows, p: usize) -> Array2<f64> {
+    Array2::from_shape_fn((rows.len(), p), |(i, j)| rows[i][j])
+}
+fn tf(x: f64) -> String {
+    format!("~{}", hex64c(x))
+}
+fn hist_x(h: &Hist) -> String {
+    list3(h.iter().map(|(r, _)| r.iter().map(|x| x.iter())), |x| hex64(*x))
+}
+fn hist_y(h: &Hist) -> String {
+    list2(h.iter().map(|(_, l)| l.iter()), |x| x.to_string())
+}
+fn near(a: f64, b: f64, tol: f64) -> bool {
+    if a.is_nan() || b.is_nan() {
+        return a.is_nan() && b.is_nan();
+    }
+    if a.is_infinite() || b.is_infinite() {
+        return a == b;
+    }
+    (a - b).abs() <= tol * (1.0 + a.abs().max(b.abs()))
+}
+fn near_v(a: &[f64], b: &[f64], tol: f64) -> bool {
+    a.len() == b.len() && a.iter().zip(b).all(|(x, y)| near(*x, *y, tol))
+}
+/// per-class statistics: (count, prior, first vector, second vector)
+type NbState = BTreeMap<usize, (usize, f64, Vec<f64>, Vec<f64>)>;
+
+/// The naive-Bayes models keep their statistics private; they are read through the public serde
+/// implementation (bincode, so that infinities and NaN survive).  Layout: map length, then per
+/// class `key, class_count, prior, array, array`; an `Array1` is `v: u8, dim: [u64; 1], data: seq`.
+fn nb_state<M: serde::Serialize>(m: &M) -> NbState {
+    let bytes = bincode::serialize(m).expect("model serialises");
+    let mut pos = 0usize;
+    let mut u64_ = |pos: &mut usize| {
+        let v = u64::from_le_bytes(bytes[*pos..*pos + 8].try_into().unwrap());
+        *pos += 8;
+        v
+    };
+    let mut out = BTreeMap::new();
+    let nclass = u64_(&mut pos);
+    for _ in 0..nclass {
+        let key = u64_(&mut pos) as usize;
+        let cnt = u64_(&mut pos) as usize;
+        let prior = f64::from_bits(u64_(&mut pos));
+        let mut arr = |pos: &mut usize| -> Vec<f64> {
+            assert_eq!(bytes[*pos], 1, "ndarray serde version");
+            *pos += 1;
+            let dim = u64::from_le_bytes(bytes[*pos..*pos + 8].try_into().unwrap());
+            let len = u64::from_le_bytes(bytes[*pos + 8..*pos + 16].try_into().unwrap());
+            assert_eq!(dim, len);
+            *pos += 16;
+            (0..len)
+                .map(|_| {
+                    let v = f64::from_bits(u64::from_le_bytes(bytes[*pos..*pos + 8].try_into().unwrap()));
+                    *pos += 8;
+                    v
+                })
+                .collect()
+        };
+        let a = arr(&mut pos);
+        let b = arr(&mut pos);
+        out.insert(key, (cnt, prior, a, b));
+    }
+    assert_eq!(pos, bytes.len(), "whole model consumed");
+    out
+}
+fn show_state(s: &NbState, a: &str, b: &str) -> String {
+    if s.is_empty() {
+        return "-".into();
+    }
+    s.iter().map(|(c, (n, pr, v1, v2))| format!("c={}/n={}/pr={}/{}={}/{}={}", c, n, hex64c(*pr), a, list(v1.iter(), |x| hex64c(*x)), b, list(v2.iter(), |x| tf(*x)))).collect::<Vec<_>>().join(";")
+}
+fn concat(h: &Hist) -> (Rows, Vec<usize>) {
+    let mut r = vec![];
+    let mut l = vec![];
+    for (a, b) in h {
+        r.extend(a.iter().cloned());
+        l.extend(b.iter().cloned());
+    }
+    (r, l)
+}
+fn col_var(rows: &[&Vec<f64>], j: usize) -> (f64, f64) {
+    let n = rows.len() as f64;
+    let mean = rows.iter().map(|r| r[j]).sum::<f64>() / n;
+    let var = rows.iter().map(|r| (r[j] - mean) * (r[j] - mean)).sum::<f64>() / n;
+    (mean, var)
+}
+
+// ---------------------------------------------------------------- Gaussian NB
+
+fn gnb_textbook(rows: &Rows, labels: &[usize], p: usize, vs: f64) -> NbState {
+    let all: Vec<&Vec<f64>> = rows.iter().collect();
+    let maxvar = (0..p).map(|j| col_var(&all, j).1).fold(f64::NEG_INFINITY, f64::max);
+    let eps = vs * maxvar;
+    let mut out = BTreeMap::new();
+    let mut classes: Vec<usize> = labels.to_vec();
+    classes.sort();
+    classes.dedup();
+    for c in classes {
+        let rc: Vec<&Vec<f64>> = rows.iter().zip(labels).filter(|(_, l)| **l == c).map(|(r, _)| r).collect();
+        let mv: Vec<(f64, f64)> = (0..p).map(|j| col_var(&rc, j)).collect();
+        out.insert(c, (rc.len(), rc.len() as f64 / rows.len() as f64, mv.iter().map(|x| x.0).collect(), mv.iter().map(|x| x.1 + eps).collect()));
+    }
+    out
+}
+
+const TOL: f64 = 1e-10;
+
+fn cmp_states(ctx: &mut Ctx, what: &str, got: &NbState, want: &NbState, kind: &str, var_class: &str, exact_second: bool) {
+    let keys_ok = got.keys().collect::<Vec<_>>() == want.keys().collect::<Vec<_>>();
+    ctx.require(keys_ok, "counts_priors", kind, || format!("{}: classes {:?}, textbook {:?}", what, got.keys().collect::<Vec<_>>(), want.keys().collect::<Vec<_>>()));
+    if !keys_ok {
+        return;
+    }
+    for (c, (n, pr, v1, v2)) in got {
+        let (wn, wpr, w1, w2) = &want[c];
+        ctx.require(n == wn && pr == wpr, "counts_priors", kind, || format!("{}: class {} count {} prior {}, textbook {} / {}", what, c, n, pr, wn, wpr));
+        if exact_second {
+            // multinomial: first vector = additive counts (exact), second = smoothed log-frequencies
+            ctx.require(v1 == w1, "feature_counts", kind, || format!("{}: class {} feature counts {:?}, textbook {:?}", what, c, v1, w1));
+            ctx.require(near_v(v2, w2, TOL), "log_prob", kind, || format!("{}: class {} log-frequencies {:?}, textbook {:?}", what, c, v2, w2));
+        } else {
+            ctx.require(near_v(v1, w1, TOL), "mean_replay", kind, || format!("{}: class {} mean {:?}, textbook {:?}", what, c, v1, w1));
+            ctx.require(near_v(v2, w2, TOL), "var_replay", var_class, || format!("{}: class {} variance {:?}, textbook (per-class variance + var_smoothing*max variance of the whole data) {:?}", what, c, v2, w2));
+        }
+    }
+}
+
+fn gnb_class(vs: f64, nb: usize) -> String {
+    format!("gnb:var_smoothing={}:batches={}", if vs == 0.0 { "zero" } else { "positive" }, if nb <= 1 { "single" } else { "multi" })
+}
+
+fn gnb_run(h: &Hist, p: usize, vs: f64) -> Result<(Vec<NbState>, Option<GaussianNb<f64, usize>>), String> {
+    let params = GaussianNb::<f64, usize>::params().var_smoothing(vs).check().map_err(|e| e.to_string())?;
+    let mut model: Option<GaussianNb<f64, usize>> = None;
+    let mut states = vec![];
+    for (rows, labels) in h {
+        let ds = Dataset::new(arr2(rows, p), Array1::from(labels.clone()));
+        model = params.fit_with(model, &ds).map_err(|e| e.to_string())?;
+        states.push(nb_state(model.as_ref().unwrap()));
+    }
+    Ok((states, model))
+}
+
+fn op_gnb(em: &mut Em, h: &Hist, p: usize, vs: f64) {
+    let op = format!("gnb vs={} p={} x={} y={}", hex64(vs), p, hist_x(h), hist_y(h));
+    let valid = p > 0 && h.iter().all(|(r, _)| !r.is_empty());
+    let body = |ctx: &mut Ctx| {
+        let (states, _) = match gnb_run(h, p, vs) {
+            Ok(x) => x,
+            Err(_) => return "err".to_string(),
+        };
+        let (rows, labels) = concat(h);
+        let want = gnb_textbook(&rows, &labels, p, vs);
+        let params = GaussianNb::<f64, usize>::params().var_smoothing(vs).check().unwrap();
+        let ds = Dataset::new(arr2(&rows, p), Array1::from(labels.clone()));
+        let batch = nb_state(&params.fit(&ds).expect("batch fit"));
+        cmp_states(ctx, "single fit on the whole data", &batch, &want, "gnb:batch", "gnb:batch", false);
+        // every prefix of the history must equal the textbook estimate of the data seen so far
+        for (i, st) in states.iter().enumerate() {
+            let pre: Hist = h[..=i].to_vec();
+            let (r, l) = concat(&pre);
+            let w = gnb_textbook(&r, &l, p, vs);
+            cmp_states(ctx, &format!("after batch {} of {}", i + 1, h.len()), st, &w, "gnb", &gnb_class(vs, i + 1), false);
+        }
+        format!("ok {}", states.iter().map(|s| show_state(s, "th", "sg")).collect::<Vec<_>>().join(" "))
+    };
+    if valid {
+        em.case_valid(op, "gnb", body)
+    } else {
+        em.case(op, body)
+    }
+}
+
+fn gnb_jll(st: &NbState, x: &[f64]) -> Vec<(usize, f64)> {
+    st.iter()
+        .map(|(c, (_, pr, th, sg))| {
+            let a: f64 = sg.iter().map(|s| (2.0 * std::f64::consts::PI * s).ln()).sum::<f64>() * -0.5;
+            let q: f64 = x.iter().zip(th).zip(sg).map(|((x, t), s)| (x - t) * (x - t) / s).sum::<f64>() * 0.5;
+            (*c, a - q + pr.ln())
+        })
+        .collect()
+}
+fn mnb_jll(st: &NbState, x: &[f64]) -> Vec<(usize, f64)> {
+    st.iter().map(|(c, (_, pr, _, lp))| (*c, x.iter().zip(lp).map(|(a, b)| a * b).sum::<f64>() + pr.ln())).collect()
+}
+/// (best class, margin to the second best)
+fn best(scores: &[(usize, f64)]) -> (usize, f64) {
+    let mut b = scores[0];
+    for s in scores {
+        if s.1 > b.1 {
+            b = *s;
+        }
+    }
+    let second = scores.iter().filter(|s| s.0 != b.0).map(|s| s.1).fold(f64::NEG_INFINITY, f64::max);
+    (b.0, b.1 - second)
+}
+
+/// shared oracle of the two prediction ops
+fn pred_oracle(ctx: &mut Ctx, kind: &str, eq_class: &str, qs: &Rows, inc_pred: &[usize], batch_pred: &[usize], inc_scores: &dyn Fn(&[f64]) -> Vec<(usize, f64)>, text_scores: &dyn Fn(&[f64]) -> Vec<(usize, f64)>) -> f64 {
+    let mut min_margin = f64::INFINITY;
+    for (i, q) in qs.iter().enumerate() {
+        let (bc, m) = best(&inc_scores(q));
+        min_margin = min_margin.min(m);
+        if m > 1e-7 {
+            ctx.require(inc_pred[i] == bc, "predict_is_argmax_posterior", kind, || format!("query {:?}: predicted {}, posterior of the model's own statistics is maximal at {} (margin {})", q, inc_pred[i], bc, m));
+        }
+        let (tc, tm) = best(&text_scores(q));
+        if tm > 1e-7 {
+            ctx.require(batch_pred[i] == tc, "batch_predict_is_textbook_argmax", kind, || format!("query {:?}: batch model predicts {}, textbook posterior maximal at {}", q, batch_pred[i], tc));
+            ctx.require(inc_pred[i] == tc, "predict_equals_batch", eq_class, || format!("query {:?}: incremental model predicts {}, batch/textbook {} (textbook margin {})", q, inc_pred[i], tc, tm));
+        }
+    }
+    min_margin
+}
+
+fn op_gnb_pred(em: &mut Em, h: &Hist, p: usize, vs: f64, qs: &Rows) {
+    let op = format!("gnb_pred vs={} p={} x={} y={} q={}", hex64(vs), p, hist_x(h), hist_y(h), list2(qs.iter().map(|x| x.iter()), |x| hex64(*x)));
+    em.case_valid(op, "gnb_pred", |ctx| {
+        let (states, model) = gnb_run(h, p, vs).expect("valid history");
+        let model = model.unwrap();
+        let q = arr2(qs, p);
+        let inc_pred = model.predict(&q).to_vec();
+        let (rows, labels) = concat(h);
+        let params = GaussianNb::<f64, usize>::params().var_smoothing(vs).check().unwrap();
+        let ds = Dataset::new(arr2(&rows, p), Array1::from(labels.clone()));
+        let batch_pred = params.fit(&ds).unwrap().predict(&q).to_vec();
+        let text = gnb_textbook(&rows, &labels, p, vs);
+        let last = states.last().unwrap().clone();
+        let m = pred_oracle(ctx, "gnb_pred", &gnb_class(vs, h.len()), qs, &inc_pred, &batch_pred, &|x| gnb_jll(&last, x), &|x| gnb_jll(&text, x));
+        format!("ok pred={} margin={}", list(inc_pred.iter(), |x| x.to_string()), tf(m))
+    });
+}
+
+// ---------------------------------------------------------------- multinomial NB
+
+fn mnb_logp(fc: &[f64], alpha: f64) -> Vec<f64> {
+    let tot: f64 = fc.iter().map(|x| x + alpha).sum();
+    fc.iter().map(|x| (x + alpha).ln() - tot.ln()).collect()
+}
+fn mnb_textbook(rows: &Rows, labels: &[usize], p: usize, alpha: f64) -> NbState {
+    let mut out = BTreeMap::new();
+    let mut classes: Vec<usize> = labels.to_vec();
+    classes.sort();
+    classes.dedup();
+    for c in classes {
+        let rc: Vec<&Vec<f64>> = rows.iter().zip(labels).filter(|(_, l)| **l == c).map(|(r, _)| r).collect();
+        let fc: Vec<f64> = (0..p).map(|j| rc.iter().map(|r| r[j]).sum()).collect();
+        let lp = mnb_logp(&fc, alpha);
+        out.insert(c, (rc.len(), rc.len() as f64 / rows.len() as f64, fc, lp));
+    }
+    out
+}
+fn mnb_run(h: &Hist, p: usize, alpha: f64) -> Result<(Vec<NbState>, Option<MultinomialNb<f64, usize>>), String> {
+    let params = MultinomialNb::<f64, usize>::params().alpha(alpha).check().map_err(|e| e.to_string())?;
+    let mut model: Option<MultinomialNb<f64, usize>> = None;
+    let mut states = vec![];
+    for (rows, labels) in h {
+        let ds = Dataset::new(arr2(rows, p), Array1::from(labels.clone()));
+        model = params.fit_with(model, &ds).map_err(|e| e.to_string())?;
+        states.push(nb_state(model.as_ref().unwrap()));
+    }
+    Ok((states, model))
+}
+fn op_mnb(em: &mut Em, h: &Hist, p: usize, alpha: f64) {
+    let op = format!("mnb alpha={} p={} x={} y={}", hex64(alpha), p, hist_x(h), hist_y(h));
+    em.case_valid(op, "mnb", |ctx| {
+        let (states, _) = mnb_run(h, p, alpha).expect("valid history");
+        let (rows, labels) = concat(h);
+        let want = mnb_textbook(&rows, &labels, p, alpha);
+        let params = MultinomialNb::<f64, usize>::params().alpha(alpha).check().unwrap();
+        let ds = Dataset::new(arr2(&rows, p), Array1::from(labels.clone()));
+        let batch = nb_state(&params.fit(&ds).expect("batch fit"));
+        cmp_states(ctx, "single fit on the whole data", &batch, &want, "mnb:batch", "mnb:batch", true);
+        for (i, st) in states.iter().enumerate() {
+            let pre: Hist = h[..=i].to_vec();
+            let (r, l) = concat(&pre);
+            let w = mnb_textbook(&r, &l, p, alpha);
+            cmp_states(ctx, &format!("after batch {} of {}", i + 1, h.len()), st, &w, "mnb", "mnb", true);
+        }
+        format!("ok {}", states.iter().map(|s| show_state(s, "fc", "lp")).collect::<Vec<_>>().join(" "))
+    });
+}
+fn op_mnb_pred(em: &mut Em, h: &Hist, p: usize, alpha: f64, qs: &Rows) {
+    let op = format!("mnb_pred alpha={} p={} x={} y={} q={}", hex64(alpha), p, hist_x(h), hist_y(h), list2(qs.iter().map(|x| x.iter()), |x| hex64(*x)));
+    em.case_valid(op, "mnb_pred", |ctx| {
+        let (states, model) = mnb_run(h, p, alpha).expect("valid history");
+        let model = model.unwrap();
+        let q = arr2(qs, p);
+        let inc_pred = model.predict(&q).to_vec();
+        let (rows, labels) = concat(h);
+        let params = MultinomialNb::<f64, usize>::params().alpha(alpha).check().unwrap();
+        let ds = Dataset::new(arr2(&rows, p), Array1::from(labels.clone()));
+        let batch_pred = params.fit(&ds).unwrap().predict(&q).to_vec();
+        let text = mnb_textbook(&rows, &labels, p, alpha);
+        let last = states.last().unwrap().clone();
+        let m = pred_oracle(ctx, "mnb_pred", "mnb_pred", qs, &inc_pred, &batch_pred, &|x| mnb_jll(&last, x), &|x| mnb_jll(&text, x));
+        format!("ok pred={} margin={}", list(inc_pred.iter(), |x| x.to_string()), tf(m))
+    });
+}
+
+// ---------------------------------------------------------------- mini-batch k-means
+
+fn sqd(a: &[f64], b: &[f64]) -> f64 {
+    let mut s = 0.0;
+    for (x, y) in a.iter().zip(b) {
+        s += (x - y) * (x - y);
+    }
+    s
+}
+
+fn op_km(em: &mut Em, c0: &Rows, batches: &[Rows], tol: f64, seed: u64) {
+    let p = c0[0].len();
+    let k = c0.len();
+    let op = format!("km tol={} c0={} x={}", hex64(tol), list2(c0.iter().map(|x| x.iter()), |x| hex64(*x)), list3(batches.iter().map(|r| r.iter().map(|x| x.iter())), |x| hex64(*x)));
+    em.case_valid(op, "km", |ctx| {
+        let params = KMeans::params_with_rng(k, Xoshiro256Plus::seed_from_u64(seed)).tolerance(tol).init_method(KMeansInit::Precomputed(arr2(c0, p))).check().expect("valid k-means parameters");
+        let mut model: Option<KMeans<f64, L2Dist>> = None;
+        let mut parts = vec![];
+        // first-principles replay: everything ever assigned to a cluster
+        let mut cs: Rows = c0.clone();
+        let mut cnt = vec![0usize; k];
+        let mut sums: Rows = vec![vec![0.0; p]; k];
+        for (bi, b) in batches.iter().enumerate() {
+            let ds = DatasetBase::from(arr2(b, p));
+            let (m, conv) = match params.fit_with(model.take(), &ds) {
+                Ok(m) => (m, true),
+                Err(IncrKMeansError::NotConverged(m)) => (m, false),
+                Err(e) => panic!("unexpected error {}", e),
+            };
+            let got_cs: Rows = m.centroids().rows().into_iter().map(|r| r.to_vec()).collect();
+            let got_cnt: Vec<f64> = m.cluster_count().to_vec();
+            // oracle: assignment against the centroids at the start of the batch, documented recurrence
+            let mut want = cs.clone();
+            let mut tie = false;
+            for x in b {
+                let ds_: Vec<f64> = cs.iter().map(|c| sqd(c, x)).collect();
+                let mut bi_ = 0;
+                for (i, d) in ds_.iter().enumerate() {
+                    if *d < ds_[bi_] {
+                        bi_ = i;
+                    }
+                }
+                let mut sorted = ds_.clone();
+                sorted.sort_by(|a, b| a.partial_cmp(b).unwrap());
+                if sorted.len() > 1 && sorted[1] - sorted[0] < 1e-9 && sorted[1] != sorted[0] {
+                    tie = true;
+                }
+                cnt[bi_] += 1;
+                for j in 0..p {
+                    sums[bi_][j] += x[j];
+                    want[bi_][j] += (x[j] - want[bi_][j]) / cnt[bi_] as f64;
+                }
+            }
+            let class = format!("km:batch={}", if bi == 0 { "first" } else { "later" });
+            if !tie {
+                ctx.require(got_cnt.iter().zip(&cnt).all(|(a, b)| *a == *b as f64), "cumulative_counts", &class, || format!("batch {}: cluster_count {:?}, cumulative assignments {:?}", bi, got_cnt, cnt));
+                for c in 0..k {
+                    ctx.require(near_v(&got_cs[c], &want[c], 1e-12), "recurrence", &class, || format!("batch {}: centroid {} = {:?}, recurrence from the previous state gives {:?}", bi, c, got_cs[c], want[c]));
+                    if cnt[c] > 0 {
+                        let mean: Vec<f64> = sums[c].iter().map(|s| s / cnt[c] as f64).collect();
+                        ctx.require(near_v(&got_cs[c], &mean, 1e-9), "running_mean", &class, || format!("batch {}: centroid {} = {:?}, mean of the {} points ever assigned {:?}", bi, c, got_cs[c], cnt[c], mean));
+                    } else {
+                        ctx.require(got_cs[c] == c0[c], "running_mean", &class, || format!("batch {}: empty cluster {} moved to {:?}", bi, c, got_cs[c]));
+                    }
+                }
+            }
+            let shift = sqd(&cs.concat(), &got_cs.concat()).sqrt();
+            // exact equality is a real boundary on lattice inputs and is judged; only a shift within rounding
+            // distance of the tolerance (but not equal to it) is left undecided
+            if shift == tol || (shift - tol).abs() > 1e-12 * (1.0 + tol) {
+                ctx.require(conv == (shift < tol), "converged_truthful", &class, || format!("batch {}: centroid shift {} tolerance {} reported converged={}", bi, shift, tol, conv));
+            }
+            parts.push(format!("cs={}/cnt={}/conv={}", list2(got_cs.iter().map(|x| x.iter()), |x| hex64c(*x)), list(got_cnt.iter(), |x| hex64c(*x)), conv as u8));
+            cs = got_cs;
+            model = Some(m);
+        }
+        format!("ok {}", parts.join(" "))
+    });
+}
+
+// ---------------------------------------------------------------- FTRL
+
+fn ftrl_w(z: f64, n: f64, hp: &[f64; 4]) -> f64 {
+    let (a, b, l1, l2) = (hp[0], hp[1], hp[2], hp[3]);
+    if z.abs() <= l1 {
+        0.0
+    } else {
+        -(z - z.signum() * l1) / ((b + n.sqrt()) / a + l2)
+    }
+}
+/// the documented per-coordinate recurrence, from the previous state and the probabilities the model used
+fn ftrl_expect(z: &[f64], n: &[f64], hp: &[f64; 4], probs: &[f32], xs: &Rows, ys: &[bool]) -> (Vec<f64>, Vec<f64>) {
+    let p = z.len();
+    let mut zo = vec![];
+    let mut no = vec![];
+    for j in 0..p {
+        let g: f64 = (0..xs.len()).map(|i| (probs[i] as f64 - if ys[i] { 1.0 } else { 0.0 }) * xs[i][j]).sum();
+        let sigma = ((n[j] + g * g).sqrt() - n[j].sqrt()) / hp[0];
+        zo.push(z[j] + g - sigma * ftrl_w(z[j], n[j], hp));
+        no.push(n[j] + g * g);
+    }
+    (zo, no)
+}
+fn ftrl_checks(ctx: &mut Ctx, class: &str, step: usize, m: &Ftrl<f64>, hp: &[f64; 4], z0: &[f64], n0: &[f64], probs: &[f32], xs: &Rows, ys: &[bool]) {
+    let (wz, wn) = ftrl_expect(z0, n0, hp, probs, xs, ys);
+    let (z, n) = (m.z().to_vec(), m.n().to_vec());
+    ctx.require(near_v(&z, &wz, 1e-9) && near_v(&n, &wn, 1e-9), "recurrence", class, || format!("step {}: z {:?} n {:?}, recurrence gives z {:?} n {:?}", step, z, n, wz, wn));
+    ctx.require(n.iter().zip(n0).all(|(a, b)| a >= b), "n_monotone", class, || format!("step {}: n decreased: {:?} -> {:?}", step, n0, n));
+    let w = m.get_weights().to_vec();
+    for j in 0..z.len() {
+        ctx.require((w[j] == 0.0) == (z[j].abs() <= hp[2]), "zero_iff_within_l1", class, || format!("step {}: coordinate {}: z {} l1 {} weight {}", step, j, z[j], hp[2], w[j]));
+    }
+}
+fn show_ftrl(m: &Ftrl<f64>) -> String {
+    format!("z={}/n={}/w={}", list(m.z().iter(), |x| tf(*x)), list(m.n().iter(), |x| tf(*x)), list(m.get_weights().iter(), |x| tf(*x)))
+}
+fn mk_bool_ds(xs: &Rows, ys: &[bool], p: usize) -> Dataset<f64, bool, ndarray::Ix1> {
+    Dataset::new(arr2(xs, p), Array1::from(ys.to_vec()))
+}
+
+fn op_ftrl_update(em: &mut Em, hp: [f64; 4], z: &[f64], n: &[f64], probs: &[f32], xs: &Rows, ys: &[bool]) {
+    let p = z.len();
+    let op = format!(
+        "ftrl_update hp={} z={} n={} probs={} x={} y={}",
+        list(hp.iter(), |x| hex64(*x)),
+        list(z.iter(), |x| hex64(*x)),
+        list(n.iter(), |x| hex64(*x)),
+        list(probs.iter(), |x| hex64(*x as f64)),
+        list2(xs.iter().map(|x| x.iter()), |x| hex64(*x)),
+        list(ys.iter(), |x| (*x as u8).to_string())
+    );
+    em.case_valid(op, "ftrl_update", |ctx| {
+        let arr = |v: &[f64]| serde_json::json!({"v": 1, "dim": [v.len()], "data": v});
+        let mut m: Ftrl<f64> = serde_json::from_value(serde_json::json!({"alpha": hp[0], "beta": hp[1], "l1_ratio": hp[2], "l2_ratio": hp[3], "z": arr(z), "n": arr(n)})).expect("Ftrl deserialises");
+        let ds = mk_bool_ds(xs, ys, p);
+        let pr: Array1<Pr> = Array1::from(probs.iter().map(|x| Pr::new(*x)).collect::<Vec<_>>());
+        m.update(&ds, pr.view());
+        ftrl_checks(ctx, "ftrl_update", 0, &m, &hp, z, n, probs, xs, ys);
+        format!("ok {}", show_ftrl(&m))
+    });
+}
+
+fn op_ftrl_fit(em: &mut Em, hp: [f64; 4], seed: u64, p: usize, batches: &[(Rows, Vec<bool>)]) {
+    // z0 is drawn by the real code from the seeded generator; it is part of the request line
+    let params = Ftrl::<f64>::params_with_rng(Xoshiro256Plus::seed_from_u64(seed)).alpha(hp[0]).beta(hp[1]).l1_ratio(hp[2]).l2_ratio(hp[3]).check().expect("valid FTRL parameters");
+    let z0 = Ftrl::new(params.clone(), p).z().to_vec();
+    let op = format!(
+        "ftrl_fit hp={} z0={} x={} y={}",
+        list(hp.iter(), |x| hex64(*x)),
+        list(z0.iter(), |x| hex64(*x)),
+        list3(batches.iter().map(|(r, _)| r.iter().map(|x| x.iter())), |x| hex64(*x)),
+        list2(batches.iter().map(|(_, l)| l.iter()), |x| (*x as u8).to_string())
+    );
+    em.case_valid(op, "ftrl_fit", |ctx| {
+        let mut model: Option<Ftrl<f64>> = None;
+        let mut parts = vec![];
+        let (mut z, mut n) = (z0.clone(), vec![0.0; p]);
+        for (i, (xs, ys)) in batches.iter().enumerate() {
+            let ds = mk_bool_ds(xs, ys, p);
+            // the probabilities the update will use: the public prediction of the previous model
+            let prev = model.clone().unwrap_or_else(|| Ftrl::new(params.clone(), p));
+            ctx.require(prev.z().to_vec() == z && prev.n().to_vec() == n, "function_of_history", "ftrl_fit", || format!("step {}: state before the update differs from the state after the previous one", i));
+            let probs: Vec<f32> = prev.predict(&arr2(xs, p)).iter().map(|pr| **pr).collect();
+            let m = params.fit_with(model.take(), &ds).expect("fit_with");
+            ftrl_checks(ctx, "ftrl_fit", i, &m, &hp, &z, &n, &probs, xs, ys);
+            z = m.z().to_vec();
+            n = m.n().to_vec();
+            parts.push(show_ftrl(&m));
+            model = Some(m);
+        }
+        format!("ok {}", parts.join(" "))
+    });
+}
+
+// ---------------------------------------------------------------- generators
+
+/// cut `rows` into the batches described by `mask` (bit i set = cut after row i)
+fn cut<T: Clone>(rows: &[T], mask: u64) -> Vec<Vec<T>> {
+    let mut out = vec![];
+    let mut cur = vec![];
+    for (i, r) in rows.iter().enumerate() {
+        cur.push(r.clone());
+        if i + 1 == rows.len() || (mask >> i) & 1 == 1 {
+            out.push(std::mem::take(&mut cur));
+        }
+    }
+    out
+}
+fn mk_hist(rows: &Rows, labels: &[usize], mask: u64) -> Hist {
+    cut(rows, mask).into_iter().zip(cut(labels, mask)).collect()
+}
+fn random_mask(rng: &mut Rng, n: usize) -> u64 {
+    // few or many cuts
+    let dens = *rng.pick(&[1u64, 2, 4, 8]);
+    let mut m = 0u64;
+    for i in 0..n.saturating_sub(1).min(63) {
+        if rng.chance(1, dens) {
+            m |= 1 << i;
+        }
+    }
+    m
+}
+fn lattice(rng: &mut Rng, kind: usize) -> f64 {
+    match kind {
+        0 => rng.range(-8, 8) as f64,
+        1 => rng.range(-32, 32) as f64 / 4.0,
+        _ => rng.range(0, 3) as f64, // many duplicates
+    }
+}
+fn gen_labels(rng: &mut Rng, n: usize) -> Vec<usize> {
+    let names: &[usize] = *rng.pick(&[&[0usize, 1][..], &[1, 2, 3][..], &[7, 3, 10, 4][..], &[5][..]]);
+    let mut l: Vec<usize> = (0..n).map(|_| *rng.pick(names)).collect();
+    match rng.below(3) {
+        // sorted by class: batches lack classes, new classes appear late
+        0 => l.sort(),
+        1 => l.sort_by(|a, b| b.cmp(a)),
+        _ => {}
+    }
+    l
+}
+fn gen_vs(rng: &mut Rng) -> f64 {
+    *rng.pick(&[0.0, 0.0, 0.0, 0.125, 0.5, 1e-9])
+}
+fn gnb_data(rng: &mut Rng, n: usize, p: usize) -> (Rows, Vec<usize>) {
+    let kind = rng.below(3);
+    let rows: Rows = (0..n).map(|_| (0..p).map(|_| lattice(rng, kind)).collect()).collect();
+    (rows, gen_labels(rng, n))
+}
+fn mnb_data(rng: &mut Rng, n: usize, p: usize) -> (Rows, Vec<usize>) {
+    let hi = *rng.pick(&[1i64, 3, 6]);
+    let rows: Rows = (0..n).map(|_| (0..p).map(|_| rng.range(0, hi) as f64).collect()).collect();
+    (rows, gen_labels(rng, n))
+}
+fn gnb_pred_ok(h: &Hist, p: usize, vs: f64) -> bool {
+    // every class needs a positive variance in every feature for the posterior to be defined
+    let (rows, labels) = concat(h);
+    let t = gnb_textbook(&rows, &labels, p, vs);
+    let all_pos = |s: &NbState| s.values().all(|(_, _, _, sg)| sg.iter().all(|v| *v > 1e-6));
+    match gnb_run(h, p, vs) {
+        Ok((states, _)) => all_pos(&t) && all_pos(states.last().unwrap()),
+        Err(_) => false,
+    }
+}
+fn gen_queries(rng: &mut Rng, rows: &Rows, p: usize, hi: bool) -> Rows {
+    let nq = 1 + rng.below(4);
+    (0..nq)
+        .map(|_| {
+            if rng.coin() {
+                rng.pick(rows).clone()
+            } else {
+                (0..p).map(|_| if hi { rng.range(0, 6) as f64 } else { lattice(rng, 1) }).collect()
+            }
+        })
+        .collect()
+}
+
+fn nb_cases(em: &mut Em, rng: &mut Rng, rows_g: &(Rows, Vec<usize>), rows_m: &(Rows, Vec<usize>), p: usize, mask: u64, with_pred: bool) {
+    let vs = gen_vs(rng);
+    let alpha = *rng.pick(&[0.0, 0.5, 1.0, 1.0, 2.0]);
+    let hg = mk_hist(&rows_g.0, &rows_g.1, mask);
+    let hm = mk_hist(&rows_m.0, &rows_m.1, mask);
+    em.count(&format!("nb:batches={}", hg.len().min(8)));
+    let nclass = |l: &[usize]| {
+        let mut v = l.to_vec();
+        v.sort();
+        v.dedup();
+        v.len()
+    };
+    if hg.iter().any(|(_, l)| nclass(l) < nclass(&rows_g.1)) {
+        em.count("nb:class_incomplete_batch");
+    }
+    em.count(if vs == 0.0 { "gnb:var_smoothing=0" } else { "gnb:var_smoothing>0" });
+    op_gnb(em, &hg, p, vs);
+    op_mnb(em, &hm, p, alpha);
+    if with_pred {
+        let qg = gen_queries(rng, &rows_g.0, p, false);
+        let qm = gen_queries(rng, &rows_m.0, p, true);
+        if gnb_pred_ok(&hg, p, vs) {
+            op_gnb_pred(em, &hg, p, vs, &qg);
+        } else {
+            em.count("gnb_pred:skipped_zero_variance");
+        }
+        if alpha > 0.0 {
+            op_mnb_pred(em, &hm, p, alpha, &qm);
+        }
+    }
+}
+
+pub fn run(em: &mut Em, rng: &mut Rng) {
+    let thorough = em.thorough();
+    // --- naive Bayes: every ordered partition of small datasets (n <= 7) into non-empty batches
+    let nmax = if thorough { 9 } else { 7 };
+    let reps = if thorough { 4 } else { 2 };
+    for n in 1..=nmax {
+        for _ in 0..reps {
+            let p = 1 + rng.below(3);
+            let dg = gnb_data(rng, n, p);
+            let dm = mnb_data(rng, n, p);
+            for mask in 0..(1u64 << (n - 1)) {
+                nb_cases(em, rng, &dg, &dm, p, mask, mask % 3 == 0);
+            }
+        }
+    }
+    // random cuts of larger datasets
+    let extra = if thorough { 1500 } else { 150 };
+    for _ in 0..extra {
+        let n = 8 + rng.below(if thorough { 120 } else { 40 });
+        let p = 1 + rng.below(4);
+        let dg = gnb_data(rng, n, p);
+        let dm = mnb_data(rng, n, p);
+        let mask = random_mask(rng, n);
+        nb_cases(em, rng, &dg, &dm, p, mask, true);
+    }
+    // error branch of the real code: an empty batch in the history / no feature column
+    {
+        let h: Hist = vec![(vec![vec![1.0], vec![2.0]], vec![0, 1]), (vec![], vec![])];
+        op_gnb(em, &h, 1, 0.0);
+        let h0: Hist = vec![(vec![vec![], vec![]], vec![0, 1])];
+        op_gnb(em, &h0, 0, 0.0);
+    }
+
+    // --- mini-batch k-means
+    let nkm = if thorough { 3000 } else { 300 };
+    for _ in 0..nkm {
+        let k = 1 + rng.below(4);
+        let p = 1 + rng.below(3);
+        let kind = rng.below(3);
+        let c0: Rows = (0..k).map(|_| (0..p).map(|_| lattice(rng, kind)).collect()).collect();
+        let nb = 1 + rng.below(if thorough { 8 } else { 5 });
+        let batches: Vec<Rows> = (0..nb).map(|_| (0..1 + rng.below(6)).map(|_| (0..p).map(|_| lattice(rng, kind)).collect()).collect()).collect();
+        let tol = *rng.pick(&[0.5, 1.0, 2.0, 4.0, 1e-4, 100.0]);
+        em.count(&format!("km:k={}", k));
+        op_km(em, &c0, &batches, tol, rng.next());
+    }
+
+    // --- FTRL
+    let nft = if thorough { 3000 } else { 300 };
+    for _ in 0..nft {
+        let p = 1 + rng.below(4);
+        let mut hp = [*rng.pick(&[0.005, 0.5, 1.0, 2.0]), *rng.pick(&[0.0, 0.5, 1.0]), *rng.pick(&[0.0, 0.25, 0.5, 1.0]), *rng.pick(&[0.0, 0.5, 1.0])];
+        if hp[1] == 0.0 && hp[3] == 0.0 {
+            // beta = l2 = 0 makes the very first weight (n = 0) a division by zero in the textbook formula itself
+            hp[3] = 0.5;
+        }
+        // lattice state with |z| on, below and above the l1 threshold
+        let z: Vec<f64> = (0..p)
+            .map(|_| match rng.below(4) {
+                0 => hp[2],
+                1 => -hp[2],
+                _ => rng.range(-16, 16) as f64 / 8.0,
+            })
+            .collect();
+        let n: Vec<f64> = (0..p).map(|_| (rng.range(0, 6) * rng.range(0, 6)) as f64 / 4.0).collect();
+        let rows = 1 + rng.below(6);
+        let xs: Rows = (0..rows).map(|_| (0..p).map(|_| rng.range(-3, 3) as f64).collect()).collect();
+        let ys: Vec<bool> = (0..rows).map(|_| rng.coin()).collect();
+        let probs: Vec<f32> = (0..rows).map(|_| rng.range(0, 16) as f32 / 16.0).collect();
+        op_ftrl_update(em, hp, &z, &n, &probs, &xs, &ys);
+        // full histories from the seeded initial state
+        let nb = 1 + rng.below(if thorough { 10 } else { 5 });
+        let batches: Vec<(Rows, Vec<bool>)> = (0..nb)
+            .map(|_| {
+                let r = 1 + rng.below(5);
+                ((0..r).map(|_| (0..p).map(|_| rng.range(-3, 3) as f64).collect()).collect(), (0..r).map(|_| rng.coin()).collect())
+            })
+            .collect();
+        op_ftrl_fit(em, hp, rng.next() % 1000, p, &batches);
+    }
+}
